@@ -67,7 +67,9 @@ FaultPair(c) ==
   c.fault = "none" \/ c.ext = "none"
   \/ <<c.prog, c.ext>> \in {<<"str", "ext_str">>, <<"objS", "ext_str_file">>, <<"funcReq", "tla_str">>}
 
-SeedVal == IF "C12_SEED" \in DOMAIN IOEnv THEN atoi(IOEnv.C12_SEED) ELSE 0
+\* IOEnv is slow (it rebuilds the whole environment): read it once, keep it in a TLC register
+ASSUME TLCSet(12, IF "C12_SEED" \in DOMAIN IOEnv THEN atoi(IOEnv.C12_SEED) ELSE 0)
+SeedVal == TLCGet(12)
 Hash(c) == 3 * Idx(InputSeq, c.input) + 5 * Idx(ModeSeq, c.mode) + 7 * (IF c.out THEN 1 ELSE 0)
            + 11 * (IF c.ntn THEN 1 ELSE 0) + 2 * Idx(ProgSeq, c.prog) + 6 * Idx(KindSeq, c.ext)
            + 9 * Idx(FaultSeq, c.fault)
@@ -85,7 +87,7 @@ MCInit ==
 
 MCConfigure ==
   /\ phase = "Configure"
-  /\ \E sv \in {SeedVal} :               \* the environment is read once per evaluation, not per candidate
+  /\ \E sv \in {SeedVal} :
      \E i \in Inputs, m \in Modes, o \in BOOLEAN, n \in BOOLEAN, f \in Faults :
        LET c == Cfg(i, m, o, n, cfg.prog, cfg.ext, f) IN
        /\ (FaultApplies(c) /\ FaultPair(c) /\ InSlice(c, sv)) = TRUE
